@@ -15,7 +15,7 @@ import shutil
 from hypothesis import strategies as st
 
 from vlib import common, poolcheck, values
-from vlib.checks import c01, decode_common
+from vlib.checks import c01, c04, decode_common
 
 
 def run(t, budget=1.0):
@@ -34,7 +34,34 @@ def run(t, budget=1.0):
     def body(data):
         entry, mi, L = pc.draw_target(data)
         M = entry.model
-        part = data.draw(st.sampled_from(["events", "events", "events", "gettag", "settag"]))
+        part = data.draw(st.sampled_from(["events", "events", "events", "gettag", "settag", "cursortag"]))
+        if part == "cursortag":
+            # get_by_tag / set_by_tag with a cursor (all wrappers) == named cursor accessors == position model of C04
+            vals = data.draw(values.level_values(L, max_entries=2, inflate=data.draw(st.booleans())))
+            img, size = M.encode_message(L, vals, background=0x5C)
+            lay = c04.layout_level(M, L, vals, M.header.size, vals.get("extra", 0))
+            sq = c04.Seq(M, img)
+            sq.write_weight = 2
+            sq.tok.append("I")
+            sq.cur = M.header.size
+            sq.c()
+            c04.root_walk(data, sq, L, vals, lay)
+            exp = "OK " + " ".join(sq.exp + ["size_by_cursor=%d" % sq.cur, "BUF " + bytes(sq.buf).hex()])
+            line = "cursortag %d %s %s" % (mi, img.hex(), " ".join(sq.tok))
+            for cfg in entry.status["configs"]:
+                resp = pc.call(entry, cfg, line)
+                res.count()
+                res.cls("by_tag_cursor_sequences")
+                if resp != exp:
+                    a, b = exp.split(), resp.split()
+                    j = next((i for i, (x, y) in enumerate(zip(a, b)) if x != y), min(len(a), len(b)))
+                    pc.fail("by-tag-cursor-mismatch" if resp.startswith("OK") else "by-tag-cursor-" + resp.split(" ")[0].lower(), entry,
+                            {"cmd": line, "config": cfg, "kind": "cursortag", "expected": exp, "actual": resp[:3000]},
+                            "[%s] message %s, cursor steps `%s` through get_by_tag/set_by_tag: token %d expected `%s` got `%s`" % (
+                                cfg, L.name, " ".join(sq.tok)[:160], j, " ".join(a[j:j + 3]), " ".join(b[j:j + 3])))
+            if len(sq.wrappers) >= 2:
+                res.nontriv(common.text_hash("cursortag", entry.dir, line))
+            return
         if part == "settag":
             size = min(M.header.size + c01.max_image_size(M, L) + 16, 60000)
             bg = bytes([data.draw(st.sampled_from([0, 0xFF, 0xA5]))]) * size
@@ -61,7 +88,7 @@ def run(t, budget=1.0):
         img, size = M.encode_message(L, vals, background=data.draw(st.sampled_from([0, 0xFF, 0x3C])))
         hx = img.hex()
         if part == "gettag":
-            exp = M.dump_message(L, vals, with_consts=True)
+            exp = M.dump_message(L, vals, with_consts=True, tag_extras=True)
             for cfg in entry.status["configs"]:
                 resp = pc.call(entry, cfg, "dump %d tag %s" % (mi, hx))
                 res.count()
@@ -128,6 +155,8 @@ def replay(path):
             ok = resp.startswith("OK ") and resp[i + 4:].strip() == case["expected_buffer"] and resp[3:i].split() == case["expected_rets"]
         elif case["kind"] == "gettag":
             ok = resp == case["expected"] or (resp == "OK" and case["expected"] == "OK ")
+        elif case["kind"] == "cursortag":
+            ok = resp == case["expected"]
         else:
             import re
             got = resp[3:] if resp.startswith("OK ") else resp
